@@ -45,11 +45,15 @@ def build(rnd):
             "trailers": rnd.random() < 0.2,
             "reset": rnd.random() < 0.1,
             "method": rnd.choice(["GET", "POST", "POST"]),
+            # the client gives up on a request it has already completed (RST_STREAM while the response is outstanding)
+            "cancel": rnd.random() < 0.15,
         })
     # merged client action order: each stream contributes open, data*, end|reset
     acts = []
     for i, s in enumerate(streams):
         seq = [("open", i)] + [("data", i, k) for k in range(len(s["body"]))] + [("reset", i) if s["reset"] else ("end", i)]
+        if s["cancel"] and not s["reset"]:
+            seq.append(("cancel", i))
         acts.append(seq)
     merged = []
     idx = [0] * n
@@ -60,7 +64,9 @@ def build(rnd):
     resp = []
     for i in range(n):
         resp.append({"body": [rnd.choice([0, 1, 7, 500, 9000, 40000, 70000]) for _ in range(rnd.choice([0, 1, 1, 2, 3]))],
-                     "trailers": rnd.random() < 0.2, "reset": rnd.random() < 0.12, "status": rnd.choice([200, 200, 404, 204])})
+                     "trailers": rnd.random() < 0.2, "reset": rnd.random() < 0.12, "status": rnd.choice([200, 200, 404, 204]),
+                     # the server starts answering only this many steps after it has the complete request
+                     "delay": rnd.choice([0, 0, 0, 1, 3, 6])})
     client_win = rnd.choice([None, None, 10, 100, 1000, 20000])
     server_win = rnd.choice([None, None, None, 7, 300, 20000])
     # bodies stay within ~40 windows so that a case needs a bounded number of WINDOW_UPDATE round trips
@@ -182,6 +188,7 @@ def run_case(case):
     ended = set()
     reset_by_client = set()
     served = {}  # tag -> progress index
+    first_ready = {}  # (conn, server stream) -> step at which its request was complete
     step = 0
     pending_data = []  # (peer, sid, bytes, end) that did not fit the flow-control window yet
 
@@ -240,6 +247,8 @@ def run_case(case):
                     continue
                 prog = served.get((conn, s), 0)
                 r = case["resp"][t % n]
+                if not final and step - first_ready.setdefault((conn, s), step) < r.get("delay", 0):
+                    continue
                 total = 2 + len(r["body"])
                 if prog >= total:
                     continue
@@ -316,7 +325,11 @@ def run_case(case):
                 else:
                     c.end_stream(s)
                 ended.add(i)
-        elif kind == "reset" and i in opened:
+        elif kind in ("reset", "cancel") and i in opened:
+            if kind == "cancel":
+                rec = c.streams.get(s)
+                if rec is not None and (rec.ended or rec.reset is not None):
+                    continue  # the response is already complete: nothing to cancel
             c.reset(s)
             reset_by_client.add(i)
             for it in list(pending_data):
@@ -368,6 +381,7 @@ def normalise(case):
     for st in case["streams"]:
         st["method"] = st["method"] if st["method"] in ("GET", "POST") else "GET"
     case["resp"] = (case["resp"] + [{"body": [], "trailers": False, "reset": False, "status": 200}] * n)[:n]
+    case["client_acts"] = [a for a in case["client_acts"] if a and a[0] in ("open", "data", "end", "reset", "cancel") and 0 <= a[1] < n]
     for r in case["resp"]:
         r["status"] = r["status"] if r["status"] in (200, 404, 204) else 200
     case["serve_order"] = (case["serve_order"] + [0.0] * n)[:n]
